@@ -15,7 +15,7 @@ TRUSTED = ["Model/Tracking.v calculate_velocity and Model/ForceSys.v set_velocit
            "fmatrix.set_velocity_matrix by exact rational correspondence (dyadic coordinates, power-of-two time steps)"]
 ASSUMPTIONS = ["mean junction speed compared with tolerance 1e-12 (one sqrt per junction)"]
 TESTED_NOT_PROVED = ["the adimensional division (mean Euclidean norm) and the reported system velocity are evaluated by the oracle"]
-IMPORTS = "From Forsys Require Import Model.Num Model.CaseUtil Model.PyList Model.ForceSys Model.Tracking Model.Velocity.\n"
+IMPORTS = "From Forsys Require Import Model.Num Model.CaseUtil Model.PyList Model.ForceSys Model.Tracking Model.Velocity Model.Round.\n"
 
 
 def check_series(res, specs, times, truth, jump, rng, exprs, label):
@@ -102,6 +102,19 @@ def check_series(res, specs, times, truth, jump, rng, exprs, label):
         vel_l = "[" + "; ".join(f"({C.zlit(v)}, ({C.qlit(ts.calculate_velocity(v, t)[0])}, {C.qlit(ts.calculate_velocity(v, t)[1])}))" for v in used) + "]"
         map_l = "[" + "; ".join(f"({C.zlit(v)}, {C.zlit(r)})" for v, r in used.items()) + "]"
         exprs.append((f"listQ_eqb (set_velocity_rhs {nrows} {map_l} (assoc_def (0%Q, 0%Q) {vel_l})) [{'; '.join(C.qlit(x) for x in bd.tolist())}]", replay))
+        # what the back-end receives: the velocity term followed by the number of interfaces, every entry rounded to three decimals by numpy
+        # (Model/Round.v np_around, bit for bit) - the junction's own rows still carry its velocity components, to the thousandth
+        if nrows and used and sum(1 for e_, _ in exprs if "field_np_ok" in e_) < 3:
+            try:
+                with impl.capture_solvers() as rec, impl.quiet():
+                    f.solve_stress(when=t, b_matrix="velocity", allow_negatives=False)
+                got = next((np.array(c_["b"], dtype=float).ravel() for c_ in rec.calls if c_.get("b") is not None and c_.get("solver") in ("nnls", "inv")), None)
+            except Exception:  # noqa  (what a solve may raise is C05's subject)
+                got = None
+            if got is not None and len(got) == nrows + 1:
+                pre = list(bd) + [float(fm.matrix.shape[1])]
+                exprs.append(("forallb (field_np_ok 3) [" + "; ".join(f"({C.flit(a)}, {C.flit(b_)})" for a, b_ in zip(pre, got.tolist())) + "]", replay))
+                res.count("right-hand side handed to the back-end = numpy rounding of the velocity term (tied)")
     try:
         with impl.quiet():
             sysv = f.get_system_velocity_per_frame()
